@@ -360,6 +360,7 @@ def weave_stack(u, u4):
 
     def write_ens(op='set'):
         return [
+            ('C18 C05:without-a-real-fault-a-failed-write-published-nothing', 'r.is_err() && final(w).hard_faults == old(w).hard_faults ==> final(w).published == old(w).published'),
             ('C01 C03 C19:a-write-never-changes-the-bytes-of-any-file',
              'bytes_kept(*old(w), *final(w))'),
             ('C13 C11:success-means-a-publication-happened' + ('' if op == 'set' else '-unless-the-key-was-already-bound'),
@@ -651,6 +652,7 @@ pub open spec fn read_copies_accepted(rs: ReadOnlyCache, links: Map<PathV, Inode
 
     def impl_ens(ws, op='set'):
         return [
+            ('C18 C05:without-a-real-fault-a-failed-write-published-nothing', 'r.is_err() && final(w).hard_faults == old(w).hard_faults ==> final(w).published == old(w).published'),
             ('C01 C03 C19:a-write-never-changes-the-bytes-of-any-file',
              'bytes_kept(*old(w), *final(w))'),
             ('C13 C11:success-means-a-publication-happened' + ('' if op == 'set' else '-unless-the-key-was-already-bound'),
@@ -876,6 +878,7 @@ pub fn opt_arc_as_ref<T: ?Sized>(o: &Option<Arc<T>>) -> (r: Option<&T>)
             ('C13 C19:the-hit-itself-is-returned-rewound', 'r.is_ok() ==> r.unwrap().ino() == file.ino() && r.unwrap().can_write() == file.can_write() && r.unwrap().offset() == 0'),
             ('C13 C11:an-identical-copy-is-published-in-the-write-cache-unless-the-key-was-already-bound',
              'r.is_ok() ==> final(w).published > old(w).published || cache.lookup(old(w).files, key).is_some()'),
+            ('C18 C05:without-a-real-fault-a-failed-promotion-published-nothing', 'r.is_err() && final(w).hard_faults == old(w).hard_faults ==> final(w).published == old(w).published'),
             ('C01 C15:the-hit-keeps-its-bytes', 'final(w).inodes.contains_key(file.ino()) && final(w).inodes[file.ino()].content == old(w).inodes[file.ino()].content'),
         ])
     pr.insert_after_stmt('let mut tmp = NamedTempFile :: new_in',
@@ -925,6 +928,8 @@ pub fn opt_arc_as_ref<T: ?Sized>(o: &Option<Arc<T>>) -> (r: Option<&T>)
             ('C13 C14:otherwise-the-first-read-only-copy-is-judged-secondary-and-the-action-applied',
              'r.is_ok() && !%s && !no_read_copy(%s, old(w).files, key) ==> exists|h: CacheHit, a: CacheHitAction, idx: int| #[trigger] call_ensures(judge, (h,), a) && h is Secondary '
              '&& #[trigger] first_copy(%s.levels(), old(w).files, key, idx, hit_file(h).ino()) && hit_outcome(self, *old(w), *final(w), false, hit_file(h).ino(), a, r.unwrap())' % (WHIT, RS, RS)),
+            ('C05 C18 C13:once-the-value-is-published-the-call-succeeds-unless-a-real-fault-follows',
+             'r.is_err() ==> final(w).published == old(w).published || final(w).hard_faults > old(w).hard_faults'),
             ('C13:a-miss-is-populated-and-stored-in-the-write-cache-or-served-from-a-throw-away-file',
              'r.is_ok() && !%s && no_read_copy(%s, old(w).files, key) ==> if self.writer().is_some() { final(w).published > old(w).published } else { '
              '!old(w).inodes.contains_key(r.unwrap().ino()) && final(w).published == old(w).published && namespace_same(*old(w), *final(w)) }' % (WHIT, RS)),
